@@ -135,7 +135,23 @@ var Kinds = []Kind{
 	{"with_id", func() interface{} { return withID{ID: 7} }},
 	{"with_slug", func() interface{} { return &withSlug{Slug: "sl ug"} }},
 	{"with_zero_id", func() interface{} { return withID{} }},
+	{"str_cjk", func() interface{} { return "這是一個很長的中文字符串用來測試截斷功能" }},
+	{"vz", func() interface{} { return vzFix{N: 1} }},
+	{"ptime_nil", func() interface{} { return (*time.Time)(nil) }},
+	{"stringer_nilptr", func() interface{} { return (*stringerFix)(nil) }},
+	{"embeds_nil", func() interface{} { return embedsFix{} }},
+	{"stringers", func() interface{} { return []fmt.Stringer{stringerFix{"s0"}} }},
+	{"pstrs", func() interface{} { return &[]string{"p0", "p1"} }},
 }
+
+// vzFix: its pointer method sorts after all its value methods
+type vzFix struct{ N int }
+
+func (v vzFix) A() string  { return "A" }
+func (v *vzFix) Z() string { return "Z" }
+
+// embedsFix promotes the fields and methods of a nil *T
+type embedsFix struct{ *T }
 
 type withID struct{ ID int }
 type withSlug struct{ Slug interface{} }
